@@ -25,6 +25,9 @@ on the value is a symbolic value of a per-function domain:
   * the four callers: values are roles (value parameter, its negation, digit count, the one expression
     truncated to uint8_t, result string, pointer + offset expression), local names and helper functions vanish;
   * the signed entry points: paths over the sign of the argument.
+Constant tables (`static constexpr T name[ N] = { … }`, `std::array< T, N>`, at function or namespace scope) are values
+of the interpreter: an element read with an index that is known here (a constant, a loop counter) is the element's
+constant, `sizeof` / `std::size` / `.size()` are constants, `static_assert`s are evaluated (a false one raises).
 Anything without an exact meaning in these domains raises TranslateError (a broken tie); nothing is guessed
 and nothing is remembered from an earlier version of the code.
 """
@@ -212,7 +215,7 @@ def type_start(p, ctx, k=0):
     if text == "::":
         return type_start(p, ctx, k + 1)
     if text == "std" and p.peek(k + 1)[1] == "::":
-        return p.peek(k + 2)[1] in STD_TYPES
+        return p.peek(k + 2)[1] in STD_TYPES or (p.peek(k + 2)[1] == "array" and p.peek(k + 3)[1] == "<")
     return ctx.is_type_name(text)
 
 
@@ -235,7 +238,15 @@ def parse_type(p, ctx):
                     p.fail("unsupported qualified type name")
                 p.eat("::")
                 name = p.ident()
-            if name in ctx.aliases:
+            if name == "array" and p.at("<"):
+                # std::array< T, N>: a constant table like `T name[ N]`
+                p.eat("<")
+                elem, especs = parse_type(p, ctx)
+                p.eat(",")
+                size = parse_bin(p, ctx, 10)
+                p.eat(">")
+                base = ("[]", 0, False, elem, size, True)
+            elif name in ctx.aliases:
                 base = ctx.aliases[name]
             elif name in ctx.tparams:
                 base = ("tparam:" + name, 0, False)
@@ -252,6 +263,12 @@ def parse_type(p, ctx):
         base = (BASIC_TABLE[key], 0, False)
     if base is None:
         p.fail("expected a type")
+    if base[0] == "[]":
+        while p.peek()[1] in CV:
+            p.next()
+        if p.peek()[1] in ("*", "&"):
+            p.fail("pointer or reference to an array")
+        return base, specs
     b, ptr, ref = base
     while True:
         text = p.peek()[1]
@@ -268,6 +285,77 @@ def parse_type(p, ctx):
         else:
             break
     return (b, ptr, ref), specs
+
+
+def parse_array_suffix(p, ctx, ct):
+    """`[ N]` / `[]` behind a declarator name: the declared type becomes a (one-dimensional) array of ct"""
+    if not p.at("["):
+        return ct
+    if ct[0] == "[]" or ct[2]:
+        p.fail("array of arrays / of references")
+    p.eat("[")
+    size = None if p.at("]") else parse_expr(p, ctx)
+    p.eat("]")
+    if p.at("["):
+        p.fail("array with more than one dimension")
+    return ("[]", 0, False, ct, size, False)
+
+
+def parse_braced(p, ctx):
+    """after `{` up to and including `}`: expressions and nested brace lists"""
+    items = []
+    if p.opt("}"):
+        return items
+    while True:
+        if p.opt("{"):
+            items.append(("list", parse_braced(p, ctx)))
+        else:
+            items.append(parse_expr(p, ctx))
+        if p.opt("}"):
+            return items
+        p.eat(",")
+        if p.opt("}"):          # trailing comma
+            return items
+
+
+def parse_initialiser(p, ctx, ct):
+    """`= e` | `= { … }` | `( … )` | `{ … }` | nothing"""
+    if p.opt("="):
+        if p.opt("{"):
+            return ("list", parse_braced(p, ctx))
+        return ("expr", parse_expr(p, ctx))
+    if p.opt("("):
+        return ("ctor", parse_args(p, ctx, ")"))
+    if p.opt("{"):
+        if ct[0] == "[]":
+            return ("list", parse_braced(p, ctx))
+        return ("ctor", parse_args(p, ctx, "}"))
+    return None
+
+
+def skip_static_assert(p, ctx):
+    """after `static_assert`: `( condition [, message] ) ;` -> the condition if it is in the expression subset, else
+    None (a static_assert has no run-time meaning; the harness build is what proves that it holds)"""
+    p.eat("(")
+    depth, start = 1, p.i
+    while depth:
+        if p.done():
+            p.fail("unterminated static_assert")
+        t = p.next()[1]
+        if t in ("(", "[", "{"):
+            depth += 1
+        elif t in (")", "]", "}"):
+            depth -= 1
+    inner = p.t[start:p.i - 1]
+    p.eat(";")
+    sub = P(inner + [("op", ",")], p.what)
+    try:
+        e = parse_expr(sub, ctx)
+        if not sub.at(","):
+            return None
+        return e
+    except TranslateError:
+        return None
 
 
 def is_int_type(ct):
@@ -351,7 +439,15 @@ def parse_unary(p, ctx):
         ct, specs = parse_type(p, ctx)
         p.eat(")")
         return ("cast", ct, parse_unary(p, ctx))
-    if text in ("sizeof", "new", "delete", "throw", "alignof"):
+    if text == "sizeof":
+        p.next()
+        if p.at("(") and type_start(p, ctx, 1):
+            p.eat("(")
+            ct, specs = parse_type(p, ctx)
+            p.eat(")")
+            return ("sizeof_t", ct)
+        return ("sizeof_e", parse_unary(p, ctx))
+    if text in ("new", "delete", "throw", "alignof"):
         p.fail("unsupported operator `%s`" % text)
     return parse_postfix(p, ctx)
 
@@ -478,13 +574,8 @@ def parse_decl_rest(p, ctx):
     """declaration statement starting at a type; single declarator"""
     ct, specs = parse_type(p, ctx)
     name = p.ident()
-    init = None
-    if p.opt("="):
-        init = ("expr", parse_expr(p, ctx))
-    elif p.opt("("):
-        init = ("ctor", parse_args(p, ctx, ")"))
-    elif p.opt("{"):
-        init = ("ctor", parse_args(p, ctx, "}"))
+    ct = parse_array_suffix(p, ctx, ct)
+    init = parse_initialiser(p, ctx, ct)
     if p.at(","):
         p.fail("several declarators in one declaration")
     p.eat(";")
@@ -535,6 +626,17 @@ def parse_stmt(p, ctx):
         return ("switch", e, items)
     if p.opt("for"):
         p.eat("(")
+        if type_start(p, ctx):
+            # range-for over a constant table: `for (const auto limit : Pow10)`
+            save = p.i
+            ct, specs = parse_type(p, ctx)
+            if p.peek()[0] == "id" and p.peek(1)[1] == ":":
+                name = p.ident()
+                p.eat(":")
+                cont = parse_expr(p, ctx)
+                p.eat(")")
+                return ("rangefor", ct, name, cont, parse_stmt(p, ctx))
+            p.i = save
         if p.opt(";"):
             init = None
         elif type_start(p, ctx):
@@ -576,6 +678,9 @@ def parse_stmt(p, ctx):
         e = parse_expr(p, ctx)
         p.eat(";")
         return ("return", e)
+    if p.opt("static_assert"):
+        e = skip_static_assert(p, ctx)
+        return ("nop",) if e is None else ("sassert", e)
     if text in ("goto", "try", "throw", "asm", "using", "typedef", "struct", "class", "enum", "case", "default"):
         p.fail("unsupported statement `%s`" % text)
     if type_start(p, ctx):
@@ -600,6 +705,7 @@ class Unit:
         self.funcs = {}       # name -> [Func] (definitions only)
         self.decls = {}       # name -> [(ret, params)] (declarations without body)
         self.globals = []     # (ctype, name, init, is_const)
+        self.sasserts = []    # conditions of namespace-scope static_asserts (those inside the expression subset)
         self.ctx = Ctx()
 
     def defs(self, name):
@@ -687,9 +793,9 @@ def parse_toplevel(p, unit, local):
             ctx.aliases[name] = ct
             continue
         if p.opt("static_assert"):
-            p.eat("(")
-            parse_args(p, ctx, ")")
-            p.eat(";")
+            e = skip_static_assert(p, ctx)
+            if e is not None:
+                unit.sasserts.append(e)
             continue
         tparams = set()
         if p.opt("template"):
@@ -739,13 +845,10 @@ def parse_toplevel(p, unit, local):
         else:
             if tparams:
                 p.fail("variable template")
-            init = None
-            if p.opt("="):
-                init = ("expr", parse_expr(p, ctx))
-            elif p.opt("{"):
-                init = ("ctor", parse_args(p, ctx, "}"))
-            elif p.opt("("):
-                init = ("ctor", parse_args(p, ctx, ")"))
+            ct = parse_array_suffix(p, ctx, ct)
+            init = parse_initialiser(p, ctx, ct)
+            if p.at(","):
+                p.fail("several declarators in one declaration")
             p.eat(";")
             unit.globals.append((ct, name, init, bool({"const", "constexpr"} & specs)))
         ctx.tparams = set()
@@ -872,6 +975,8 @@ def show(v):
 
 
 def show_type(ct):
+    if ct[0] == "[]":
+        return show_type(ct[3]) + "[]"
     return ct[0] + "*" * ct[1] + ("&" if ct[2] else "")
 
 
@@ -890,6 +995,93 @@ class Interp:
                 self.globals[name] = Cell(ct, ("mutable-global",), False)
                 continue
             self.globals[name] = self.make_cell(ct, init, True, name)
+        for e in unit.sasserts:
+            self.static_assert(e)
+
+    # ---- constant tables, sizeof, static_assert
+    def make_array(self, ct, init, is_const, name):
+        """`const T name[ N] = { … }` / `const std::array< T, N> name = {{ … }}`: a table of constants.  Elements
+        are evaluated and converted to T now; missing ones are value-initialised as in C++"""
+        _, _, _, elem, size_e, is_std = ct
+        if not is_const:
+            self.fail("array `%s` is not const / constexpr" % name)
+        if init is None or init[0] != "list":
+            self.fail("array `%s`: initialiser is not a brace list" % name)
+        items = init[1]
+        if is_std and len(items) == 1 and items[0][0] == "list":
+            items = items[0][1]
+        if any(x[0] == "list" for x in items):
+            self.fail("array `%s`: nested initialiser list" % name)
+        if not (is_int_type(elem) or elem[1] > 0):
+            self.fail("array `%s` of `%s`" % (name, show_type(elem)))
+        vals = []
+        for x in items:
+            v = self.eval(x)
+            if is_conc(v):
+                if not is_int_type(elem):
+                    if v[3] != 0:
+                        self.fail("array `%s`: integer stored in a pointer element" % name)
+                    v = ("null",)
+                else:
+                    v = self.convert(v, elem)
+            elif v[0] == "strlit" and elem[:2] == ("char", 1):
+                pass
+            elif v[0] == "null" and elem[1] > 0:
+                pass
+            else:
+                self.fail("array `%s`: element %s is not a constant" % (name, show(v)))
+            vals.append(v)
+        if size_e is not None:
+            n = self.eval(size_e)
+            if not is_conc(n) or n[3] <= 0:
+                self.fail("array `%s`: size is not a positive constant" % name)
+            if len(vals) > n[3]:
+                self.fail("array `%s`: more initialisers than elements" % name)
+            zero = ("null",) if elem[1] > 0 else self.convert(conc(32, True, 0), elem)
+            vals += [zero] * (n[3] - len(vals))
+        if not vals:
+            self.fail("array `%s` without elements" % name)
+        return Cell(ct, ("arr", elem, tuple(vals)), True)
+
+    def size_of_type(self, ct, val=None):
+        if ct[0] == "[]":
+            if val is None or val[0] != "arr":
+                self.fail("sizeof of an array type")
+            return len(val[2]) * self.size_of_type(ct[3])
+        if ct[1] > 0:
+            return 8
+        if ct[2] is False and is_int_type(ct):
+            return max(1, INT_INFO[ct[0]][0] // 8)
+        if ct[2] and is_int_type((ct[0], 0, False)):
+            return max(1, INT_INFO[ct[0]][0] // 8)
+        self.fail("sizeof( %s)" % show_type(ct))
+
+    def size_of_expr(self, e):
+        """sizeof of an (unevaluated) expression: a variable or an element of a constant table"""
+        if e[0] == "id":
+            cell = self.lookup(e[1])
+            if cell.ct[0] == "auto":
+                self.fail("sizeof of an `auto` variable")
+            return self.size_of_type(cell.ct, cell.val)
+        if (e[0] == "idx" and e[1][0] == "id") or (e[0] == "un" and e[1] == "*" and e[2][0] == "id"):
+            cell = self.lookup(e[1][1] if e[0] == "idx" else e[2][1])
+            if cell.ct[0] == "[]":
+                return self.size_of_type(cell.ct[3])
+        self.fail("sizeof of this expression")
+
+    def static_assert(self, e):
+        """evaluated where the condition is a constant the interpreter can compute: a false one means that the code
+        does not compile.  It has no run-time meaning, so one that cannot be evaluated here is left to the compiler"""
+        frames, steps = self.frames, self.steps
+        try:
+            v = self.eval(e)
+        except TranslateError:
+            self.frames = frames
+            return
+        finally:
+            self.steps = steps
+        if is_conc(v) and v[3] == 0:
+            self.fail("a static_assert does not hold: the code does not compile")
 
     # ---- helpers
     def fail(self, msg):
@@ -925,6 +1117,12 @@ class Interp:
         return self.dom.convert(self, v, ct, explicit)
 
     def make_cell(self, ct, init, is_const, name):
+        if ct[0] == "[]":
+            return self.make_array(ct, init, is_const, name)
+        if init is not None and init[0] == "list":
+            if any(x[0] == "list" for x in init[1]):
+                self.fail("`%s`: nested initialiser list" % name)
+            init = ("ctor", init[1])
         if init is None:
             if is_const:
                 self.fail("constant `%s` without initialiser" % name)
@@ -950,6 +1148,14 @@ class Interp:
         if is_conc(v):
             return v[3] != 0
         return self.dom.truth(self, v)
+
+    def table_elem(self, a, i):
+        """element of a constant table: only for an index that is known here (a constant, a loop counter)"""
+        if not is_conc(i):
+            self.fail("constant table indexed with %s, which is not known" % show(i))
+        if not 0 <= i[3] < len(a[2]):
+            self.fail("constant table of %d elements read at index %d" % (len(a[2]), i[3]))
+        return a[2][i[3]]
 
     # ---- concrete arithmetic
     def carith(self, op, a, b):
@@ -997,7 +1203,10 @@ class Interp:
         if t == "un" and e[1] == "*":
             return ("mem", self.eval(e[2]))
         if t == "idx":
-            return ("mem", self.dom.elem_ptr(self, self.eval(e[1]), self.eval(e[2])))
+            base = self.eval(e[1])
+            if base[0] == "arr":
+                self.fail("store into a constant table")
+            return ("mem", self.dom.elem_ptr(self, base, self.eval(e[2])))
         self.fail("unsupported assignment target")
 
     def read(self, cell):
@@ -1032,7 +1241,10 @@ class Interp:
             if op == "&":
                 x = e[2]
                 if x[0] == "idx":
-                    return self.dom.elem_ptr(self, self.eval(x[1]), self.eval(x[2]))
+                    base = self.eval(x[1])
+                    if base[0] == "arr":
+                        self.fail("address of an element of a constant table")
+                    return self.dom.elem_ptr(self, base, self.eval(x[2]))
                 if x[0] == "un" and x[1] == "*":
                     return self.eval(x[2])
                 self.fail("unsupported address-of")
@@ -1091,19 +1303,36 @@ class Interp:
             i = self.eval(e[2])
             if a[0] == "strlit" and is_conc(i) and 0 <= i[3] < len(a[1]):
                 return conc(8, True, wrap_mod(8, True, a[1][i[3]]))
+            if a[0] == "arr":
+                return self.table_elem(a, i)
             self.fail("read through a pointer")
         if t == "call":
             callee = e[1]
             if callee[0] == "mem":
-                return self.dom.method(self, self.eval(callee[1]), callee[2], [self.eval(a) for a in e[2]])
+                obj = self.eval(callee[1])
+                if obj[0] == "arr":
+                    if callee[2] == "size" and not e[2]:
+                        return conc(64, False, len(obj[2]))
+                    if callee[2] == "at" and len(e[2]) == 1:
+                        return self.table_elem(obj, self.eval(e[2][0]))
+                    self.fail("member `.%s()` of a constant table" % callee[2])
+                return self.dom.method(self, obj, callee[2], [self.eval(a) for a in e[2]])
             if callee[0] != "id":
                 self.fail("call through an expression")
             return self.call(callee[1], e[2])
         if t == "mem":
             self.fail("member access `.%s`" % e[2])
+        if t == "sizeof_t":
+            return conc(64, False, self.size_of_type(e[1]))
+        if t == "sizeof_e":
+            return conc(64, False, self.size_of_expr(e[1]))
         self.fail("unsupported expression `%s`" % t)
 
     def call(self, name, args):
+        if name == "size" and len(args) == 1 and args[0][0] == "id" and not self.unit.defs("size"):
+            cell = self.lookup(args[0][1])          # std::size( table)
+            if cell.ct[0] == "[]":
+                return conc(64, False, len(cell.val[2]))
         r = self.dom.call(self, name, args)
         if r is not NotImplemented:
             return r
@@ -1185,6 +1414,8 @@ class Interp:
             return
         if t == "expr":
             self.eval(s[1])
+        elif t == "sassert":
+            self.static_assert(s[1])
         elif t == "decl":
             _, ct, name, init, is_const = s
             if ct[2]:
@@ -1234,6 +1465,31 @@ class Interp:
                     pass
                 finally:
                     self.frames[-1].pop()
+        elif t == "rangefor":
+            _, ct, name, cont, body = s
+            tbl = self.eval(cont)
+            if tbl[0] != "arr":
+                self.fail("range-for over something that is not a constant table")
+            if ct[1] > 0 and ct[0] != "auto":
+                self.fail("range-for variable of pointer type")
+            try:
+                for v in tbl[2]:
+                    self.tick()
+                    self.frames[-1].append({})
+                    try:
+                        # by value or by (const) reference: the element is a constant either way
+                        ect = (ct[0], ct[1], False)
+                        cell = Cell(ect if ct[0] != "auto" else tbl[1], None, True)
+                        cell.val = self.convert(v, ect)
+                        self.declare(name, cell)
+                        try:
+                            self.exec_scoped([body])
+                        except ContinueEx:
+                            pass
+                    finally:
+                        self.frames[-1].pop()
+            except BreakEx:
+                pass
         elif t in ("while", "for", "dowhile"):
             self.frames[-1].append({})
             try:
